@@ -11,3 +11,14 @@ func VerifParseCap(queryType string, raw []byte, cap int) (parsed, inspected, fi
 	got := p.consumeAny(raw, queries[queryType], 0)
 	return got, p.ib, p.firstToken, p.querySatisfied
 }
+
+// VerifParseFresh runs the scanner on a brand-new state (no pool involved).
+func VerifParseFresh(queryType string, raw []byte) (parsed, inspected, firstToken int, querySatisfied bool) {
+	p := &parserState{maxRecursion: maxRecursion}
+	p.reset()
+	got := p.consumeAny(raw, queries[queryType], 0)
+	if !p.complete {
+		got = 0
+	}
+	return got, p.ib, p.firstToken, p.querySatisfied
+}
